@@ -4,6 +4,7 @@ import (
 	"bytes"
 	"fmt"
 	"math/rand"
+	"strings"
 
 	"github.com/xelaj/mtproto/internal/mtproto/messages"
 	"github.com/xelaj/mtproto/zverif/ref/mtp"
@@ -72,6 +73,47 @@ func c03(c *wk.Ctx) {
 			}
 			idx++
 		}
+	}
+	// sealing and opening from several goroutines at once (the client's send and receive paths do that)
+	for k := 0; k < c.Pick(8, 80); k++ {
+		if c.Mine(idx) {
+			c.Begin(idx, "envelope concurrent")
+			res := concurrently(8, int64(idx), func(g int, r *rand.Rand) string {
+				for it := 0; it < 250; it++ {
+					key := rbytes(r, 256)
+					info := &stubInfo{key: key, salt: pick64(r), session: pick64(r), seq: int32(r.Intn(1<<20) * 2)}
+					body := rbytes(r, r.Intn(120))
+					id := pick64(r) &^ 3
+					if g%2 == 0 {
+						m := &messages.Encrypted{Msg: body, MsgID: id}
+						pkt, err := m.Serialize(info, false)
+						if err != nil {
+							return "out-error: " + err.Error()
+						}
+						in, oerr := mtp.Open(key, pkt, 0)
+						if oerr != nil || in.MsgID != id || in.Salt != info.salt || in.Session != info.session || !bytes.Equal(in.Body, body) {
+							return fmt.Sprintf("out-not-openable: goroutine %d iteration %d: the reference server cannot open a packet sealed while other goroutines seal and open: %v", g, it, oerr)
+						}
+					} else {
+						in := mtp.Inner{Salt: pick64(r), Session: pick64(r), MsgID: id | 1, SeqNo: int32(r.Intn(1000)), Body: body}
+						pkt := mtp.Seal(key, in, 8, rbytes(r, (16-(32+len(body))%16)%16))
+						m, err := messages.DeserializeEncrypted(pkt, key)
+						if err != nil || m.MsgID != in.MsgID || m.Salt != in.Salt || !bytes.Equal(m.Msg, body) {
+							return fmt.Sprintf("in-refused: goroutine %d iteration %d: conformant packet not opened while other goroutines seal and open: %v", g, it, err)
+						}
+					}
+				}
+				return ""
+			})
+			c.Count("evaluations", 8*250)
+			for _, s := range res {
+				if s != "" {
+					c.Viol("C03", idx, "concurrent/"+strings.SplitN(s, ":", 2)[0], s, nil)
+				}
+			}
+			c.Distinct("concurrent", k)
+		}
+		idx++
 	}
 }
 
